@@ -5,4 +5,6 @@ import HealSparse.Props.C06
 #print axioms HS.C06.intersection_fold
 #print axioms HS.C06.rowOk_sound
 #print axioms HS.C06.opsTable_ok
+#print axioms HS.C06.opsTable_spec
+#print axioms HS.C06.opsTable_withSpec
 #print axioms HS.C06.opsTable_complete
